@@ -441,6 +441,12 @@ func (x *actorSystem) authenticateLocalWorkPullingWorker(sender *PID, producerNa
 		return nil, "", err
 	}
 
+	// the companion starts before the spawn transaction attaches it to the tree;
+	// until then a Watch on it is a silent no-op and its death would never be seen
+	if attached, ok := x.actors.nodeByName(sender.Name()); !ok || attached.value() == nil || !attached.value().Equals(sender) {
+		return nil, "", fmt.Errorf("%w: companion=%s is not attached to the actor tree yet", errReliableCompanionUnavailable, sender.Name())
+	}
+
 	consumer := endpoint.reliableDelivery
 	if consumer == nil || consumer.consumer == nil || consumer.consumer.producerName != producerName {
 		return nil, "", fmt.Errorf("%w: worker endpoint=%s does not name producer=%s", errReliableCompanionUnavailable, spec.endpointName, producerName)
